@@ -5,9 +5,13 @@ package main
 // CASE weights <size> ; - | <36 comma separated int64>     (the live ai.DefaultWeights, compared with coq/Generated/Consts.v)
 // CASE thresholds ; - | <WinThreshold> <MaxEval> <WinBase> <ForcedWin>
 //
+// ORACLE-FAIL classes: heuristic-in-decided-range, terminal-score-wrong, evaluator-panic, evaluator-history-dependent (a used
+// evaluator instance disagrees with a fresh one), finished-line-undecided-value / decided-value-unfinished-line (Analyze).
+//
 // The helpers with the prefix `ev` (board construction, decoding of the wire format) are shared with c19.go.
 
 import (
+	"context"
 	"encoding/json"
 	"fmt"
 	"math/rand"
@@ -702,6 +706,8 @@ func runC18(c *ctx) {
 		p := evPos(r, b, 2+r.Intn(800), exact, r.Intn(3) == 0)
 		emitC18(c, p, pickW(), fam)
 	}
+	// one evaluator instance over positions that share their top bitboards
+	runHistory(c)
 	// hill climbing towards the threshold
 	for size := 3; size <= 8; size++ {
 		for k := 0; k < 4*c.scale; k++ {
@@ -726,6 +732,24 @@ func replayC18(c *ctx) {
 		fmt.Fprintln(os.Stderr, err)
 		os.Exit(2)
 	}
+	if len(parts) == 2 && strings.HasPrefix(strings.TrimSpace(parts[1]), "depth") { // an Analyze case
+		var depth int
+		var table int64
+		fmt.Sscanf(strings.TrimSpace(parts[1]), "depth %d table %d", &depth, &table)
+		analyzeCorollary(c, p, depth, table)
+		searchWithSharedEvaluator(c, p, depth, table)
+		return
+	}
+	if i := strings.Index(inp, "; history"); i >= 0 { // one evaluator instance: the history first, then the position
+		h := newHist(c, p.Size())
+		for _, e := range strings.Split(inp[i+len("; history"):], "/") {
+			if q, err := evDecode(strings.TrimSpace(e)); err == nil && q.Size() == p.Size() {
+				h.eval(q, "replay_history")
+			}
+		}
+		h.eval(p, "replay")
+		return
+	}
 	var w *ai.Weights
 	if len(parts) == 2 && strings.TrimSpace(parts[1]) != "D" {
 		var ww ai.Weights
@@ -737,4 +761,282 @@ func replayC18(c *ctx) {
 		w = &ww
 	}
 	emitC18(c, p, w, "replay")
+}
+
+// ---------- HISTORY family: one evaluator instance, positions with identical top bitboards ----------
+//
+// The evaluation must be a function of the position.  An evaluator value (the closure returned by ai.MakeEvaluator, and
+// the one inside a MinimaxAI) is used for many positions in a row; positions that agree on White/Black/Standing/Caps may
+// still differ in reserves, buried stones, side to move and therefore in game-over status.  Every value obtained from the
+// SHARED instance is judged by the range oracle, compared with a FRESH instance on the same position (class
+// `evaluator-history-dependent`) and printed as a CASE, so that the extracted model (a pure function) is compared too.
+
+type histEvaluator struct {
+	c      *ctx
+	size   int
+	shared ai.EvaluationFunc
+	mm     *ai.MinimaxAI
+	cs     bitboard.Constants
+	emit   int // CASE lines still to print for this instance
+	prev   []string // the positions this instance evaluated before (the last few), for the replay file
+}
+
+func newHist(c *ctx, size int) *histEvaluator {
+	return &histEvaluator{c: c, size: size, shared: ai.MakeEvaluator(size, nil),
+		mm: ai.NewMinimax(ai.MinimaxConfig{Size: size, Depth: 1, TableMem: -1}), cs: bitboard.Precompute(uint(size)), emit: 1 << 30}
+}
+
+// judge one value of the shared instance
+func (h *histEvaluator) judge(p *tak.Position, v int64, who string, kind string) {
+	c := h.c
+	fresh := ai.MakeEvaluator(h.size, nil)(&h.cs, p)
+	inp := enc(p) + " ; D"
+	c.stat("history_evaluations", 1)
+	if h.emit > 0 {
+		h.emit--
+		ew := ai.EvaluateWinner(&h.cs, p)
+		wp, wt, bp, bt := ai.CountThreats(&h.cs, p)
+		c.printf("CASE %s | %d %d | %d %d %d %d\n", inp, v, ew, wp, wt, bp, bt)
+		c.stat("cases", 1)
+		c.stat("kind_"+kind, 1)
+		c.stat(fmt.Sprintf("size%d", p.Size()), 1)
+	}
+	hist := inp + " ; history " + strings.Join(h.prev, " / ")
+	if v != fresh {
+		c.printf("ORACLE-FAIL evaluator-history-dependent | %s | %s instance used before on the history positions: %d, fresh instance: %d | the evaluation is a function of the position\n",
+			hist, who, v, fresh)
+	}
+	if cls, want := c18Oracle(absOf(p), v); cls != "" {
+		c.printf("ORACLE-FAIL %s | %s | %s (used instance) evaluate=%d | %s\n", cls, hist, who, v, want)
+	}
+	if e := enc(p); len(h.prev) == 0 || h.prev[len(h.prev)-1] != e {
+		h.prev = append(h.prev, e)
+		if len(h.prev) > 4 {
+			h.prev = h.prev[1:]
+		}
+	}
+}
+
+func (h *histEvaluator) eval(p *tak.Position, kind string) {
+	h.judge(p, h.shared(&h.cs, p), "MakeEvaluator", kind)
+	h.judge(p, h.mm.Evaluate(p), "MinimaxAI.Evaluate", kind)
+}
+
+// sameTops: variants of one board that agree on the four top bitboards
+func sameTopsVariants(r *rand.Rand, b evBoard, move int) []*tak.Position {
+	var out []*tak.Position
+	mk := func(bd evBoard, mv int) *tak.Position {
+		cfg := tak.Config{Size: len(bd), Pieces: 200, Capstones: 30}
+		p, err := tak.FromSquares(cfg, bd, mv)
+		if err != nil {
+			panic(err)
+		}
+		return p
+	}
+	st, cp := evCount(b)
+	if st[0] > 150 || st[1] > 150 || cp[0] > 20 || cp[1] > 20 {
+		return nil
+	}
+	set := func(p *tak.Position, ws, wc, bs, bc int) *tak.Position {
+		tak.VerifSetRaw(p, byte(ws), byte(wc), byte(bs), byte(bc), p.MoveNumber())
+		return p
+	}
+	spare := func() int { return 1 + r.Intn(30) }
+	out = append(out, set(mk(b, move), spare(), r.Intn(2), spare(), r.Intn(2))) // both have pieces
+	out = append(out, set(mk(b, move), 0, 0, spare(), r.Intn(2)))                // White out of pieces: over
+	out = append(out, set(mk(b, move), spare(), r.Intn(2), 0, 0))                // Black out of pieces: over
+	out = append(out, set(mk(b, move), 0, 1, spare(), 0))                        // no flats but a capstone: not over
+	out = append(out, set(mk(b, move+1), spare(), 1, spare(), 1))                // other side to move
+	out = append(out, set(mk(b, move+1), 0, 0, 0, 0))
+	// other buried stones under the same tops
+	b2 := b.clone()
+	for y := range b2 {
+		for x := range b2[y] {
+			if len(b2[y][x]) == 0 {
+				continue
+			}
+			switch r.Intn(3) {
+			case 0:
+				for k := r.Intn(4); k > 0 && len(b2[y][x]) < 12; k-- {
+					b2[y][x] = append(b2[y][x], tak.MakePiece(evCol(r), tak.Flat))
+				}
+			case 1:
+				for j := 1; j < len(b2[y][x]); j++ {
+					b2[y][x][j] = tak.MakePiece(b2[y][x][j].Color().Flip(), tak.Flat)
+				}
+			}
+		}
+	}
+	if s2, _ := evCount(b2); s2[0] <= 150 && s2[1] <= 150 {
+		out = append(out, set(mk(b2, move), spare(), 1, spare(), 1))
+		out = append(out, set(mk(b2, move), 0, 0, spare(), 1))
+	}
+	r.Shuffle(len(out), func(i, j int) { out[i], out[j] = out[j], out[i] })
+	return out
+}
+
+// naturalPair: a parent in which the mover has exactly one flat stone and no capstone, an empty square e and an adjacent
+// own stack (own flat on an own flat).  Placing the last stone on e ends the game; sliding the top of the stack onto e
+// gives the same four top bitboards with the game still on.
+func naturalPair(r *rand.Rand, n int) (parent, placed, slid *tak.Position, ok bool) {
+	b := evNew(n)
+	move := 2 + r.Intn(40)
+	me := tak.White
+	if move%2 == 1 {
+		me = tak.Black
+	}
+	ex, ey := r.Intn(n), r.Intn(n)
+	dirs := [][3]int{{1, 0, int(tak.SlideLeft)}, {-1, 0, int(tak.SlideRight)}, {0, 1, int(tak.SlideDown)}, {0, -1, int(tak.SlideUp)}}
+	d := dirs[r.Intn(4)]
+	ax, ay := ex+d[0], ey+d[1] // the stack; it slides towards e
+	if ax < 0 || ay < 0 || ax >= n || ay >= n {
+		return nil, nil, nil, false
+	}
+	for y := 0; y < n; y++ {
+		for x := 0; x < n; x++ {
+			if (x == ex && y == ey) || r.Intn(5) < 2 {
+				continue
+			}
+			k := []tak.Kind{tak.Flat, tak.Flat, tak.Flat, tak.Standing, tak.Capstone}[r.Intn(5)]
+			b[y][x] = evStack(r, evCol(r), k, 1+r.Intn(3)/2, 0)
+		}
+	}
+	// one more empty square, so that the board is not full afterwards
+	fx, fy := r.Intn(n), r.Intn(n)
+	if (fx != ax || fy != ay) && (fx != ex || fy != ey) {
+		b[fy][fx] = nil
+	}
+	b[ay][ax] = evStack(r, me, tak.Flat, 2+r.Intn(3), 1)
+	cfg := tak.Config{Size: n, Pieces: 200, Capstones: 30}
+	p, err := tak.FromSquares(cfg, b, move)
+	if err != nil {
+		return nil, nil, nil, false
+	}
+	ws, wc, bs, bc := 1+r.Intn(20), r.Intn(2), 1+r.Intn(20), r.Intn(2)
+	if me == tak.White {
+		ws, wc = 1, 0
+	} else {
+		bs, bc = 1, 0
+	}
+	tak.VerifSetRaw(p, byte(ws), byte(wc), byte(bs), byte(bc), move)
+	if over, _, _ := absOf(p).outcome(); over {
+		return nil, nil, nil, false
+	}
+	q1, e1 := p.Move(tak.Move{X: int8(ex), Y: int8(ey), Type: tak.PlaceFlat})
+	q2, e2 := p.Move(tak.Move{X: int8(ax), Y: int8(ay), Type: tak.MoveType(d[2]), Slides: 1})
+	if e1 != nil || e2 != nil {
+		return nil, nil, nil, false
+	}
+	return p, q1, q2, true
+}
+
+// searchWithSharedEvaluator: a real search whose leaf evaluator is ONE instance of the built-in evaluator; every leaf
+// value is judged as it is produced (range oracle, fresh instance), a few leaves are printed as CASEs.
+func searchWithSharedEvaluator(c *ctx, p *tak.Position, depth int, table int64) {
+	h := newHist(c, p.Size())
+	h.emit = 6
+	cfg := ai.MinimaxConfig{Size: p.Size(), Depth: depth, Seed: 1, TableMem: table,
+		Evaluate: func(cs *bitboard.Constants, q *tak.Position) int64 {
+			v := h.shared(cs, q)
+			h.judge(q, v, "MakeEvaluator inside Analyze", "history_search_leaf")
+			return v
+		}}
+	m := ai.NewMinimax(cfg)
+	m.Analyze(context.Background(), p)
+	c.stat("history_searches", 1)
+}
+
+// analyzeCorollary: the C18 corollary on a default MinimaxAI (its own evaluator instance).  The line reported by
+// Analyze is replayed; if it ends in a finished, decided game the reported value must lie beyond the threshold, and a
+// value beyond the threshold must come with a finished game at the end of the reported line.
+func analyzeCorollary(c *ctx, p *tak.Position, depth int, table int64) {
+	m := ai.NewMinimax(ai.MinimaxConfig{Size: p.Size(), Depth: depth, Seed: 1, TableMem: table})
+	pv, v, _ := m.Analyze(context.Background(), p)
+	c.stat("history_analyze", 1)
+	q := p
+	finished := false
+	var win tak.Color
+	for _, mv := range pv {
+		n, err := q.Move(mv)
+		if err != nil {
+			return // legality of the line is C04's subject
+		}
+		q = n
+		if over, w, _ := absOf(q).outcome(); over {
+			finished, win = true, w
+			break
+		}
+	}
+	inp := fmt.Sprintf("%s ; depth %d table %d", enc(p), depth, table)
+	switch {
+	case finished && win != tak.NoColor && abs64(v) <= ai.WinThreshold:
+		c.stat("history_analyze_finished_line", 1)
+		c.printf("ORACLE-FAIL finished-line-undecided-value | %s | Analyze value %d, reported line %s ends in a game won by %s | |v| > %d\n",
+			inp, v, encMoves(pv), colorStr(win), int64(ai.WinThreshold))
+	case finished:
+		c.stat("history_analyze_finished_line", 1)
+	case abs64(v) > ai.WinThreshold && table < 0 && len(pv) >= 1:
+		c.printf("ORACLE-FAIL decided-value-unfinished-line | %s | Analyze value %d, reported line %s ends in an unfinished game | a finished game on the line\n",
+			inp, v, encMoves(pv))
+	}
+}
+
+func runHistory(c *ctx) {
+	r := c.r
+	// constructed: same tops, different reserves / buried stones / side to move
+	for k := 0; k < 150*c.scale; k++ {
+		size := 3 + k%6
+		var b evBoard
+		if k%3 == 0 {
+			b, _ = extremeBoard(r, size, r.Intn(6))
+		} else {
+			_, bd, _ := constructedBoard(r, size, 1+r.Intn(5), 0.2+0.7*r.Float64())
+			b = evBoard(bd)
+		}
+		vs := sameTopsVariants(r, b, 2+r.Intn(60))
+		if vs == nil {
+			continue
+		}
+		h := newHist(c, size)
+		for round := 0; round < 2; round++ { // twice: every position is also seen after all the others
+			for _, p := range vs {
+				h.eval(p, "history_same_tops")
+			}
+		}
+		c.stat("history_sequences", 1)
+	}
+	// the natural pair, both orders, and searches from the parent
+	for k := 0; k < 240*c.scale; k++ {
+		size := 3 + k%4
+		p, placed, slid, ok := naturalPair(r, size)
+		if !ok {
+			c.stat("history_pair_rejected", 1)
+			continue
+		}
+		if placed.White == slid.White && placed.Black == slid.Black && placed.Standing == slid.Standing && placed.Caps == slid.Caps {
+			c.stat("history_pair_identical_tops", 1)
+		}
+		o1, _, _ := absOf(placed).outcome()
+		o2, _, _ := absOf(slid).outcome()
+		if o1 != o2 {
+			c.stat("history_pair_over_differs", 1)
+		}
+		seqs := [][]*tak.Position{{slid, placed, slid}, {placed, slid, placed}, {p, slid, placed}}
+		for _, sq := range seqs {
+			h := newHist(c, size)
+			for _, q := range sq {
+				h.eval(q, "history_natural_pair")
+			}
+		}
+		table := int64(-1)
+		if k%2 == 0 {
+			table = 1 << 16
+		}
+		searchWithSharedEvaluator(c, p, 1, table)
+		analyzeCorollary(c, p, 1, table)
+		if size <= 5 {
+			searchWithSharedEvaluator(c, p, 2, table)
+			analyzeCorollary(c, p, 2, table)
+		}
+	}
 }
